@@ -5,6 +5,7 @@ From Coq Require Import List NArith Bool.
 From Quill Require Import Queue.BQDefs Backend.BEDefs Backend.BEExec Backend.BEInv Backend.BECount TieC08.
 Import ListNotations.
 Local Open Scope N_scope.
+From Quill Require TieMBE.
 From Quill Require TieBE ExpectedBE TieC11.
 
 (* T-src: the BackendWorker methods this property's part of M-BE re-states are, statement by statement, the ones the model
@@ -14,6 +15,13 @@ From Quill Require TieBE ExpectedBE TieC11.
 Theorem C08_tie_log_statement : QuillGen.SrcFacts.sk_logger_log_statement = Quill.TieC11.expected_log_statement.
 Proof. exact Quill.TieC11.src_log_statement_skeleton. Qed.
 Print Assumptions C08_tie_log_statement.
+
+(* T-src: the two abstractions M-BE makes - a thread's queue is an atomic FIFO (C01 / C02), registration and cache refresh
+   are atomic steps (registration protocol of C03) - hold for the memory orders, statement orders and shapes found in the
+   source (TieMBE.v spells the facts out) *)
+Theorem C08_tie_MBE_abstractions : Quill.TieMBE.MBE_abstractions_hold.
+Proof. exact Quill.TieMBE.mbe_abstractions. Qed.
+Print Assumptions C08_tie_MBE_abstractions.
 
 Theorem C08_tie_backend_methods :
   QuillGen.SrcFacts.sk_be_cleanup_invalidated_thread_contexts = Quill.ExpectedBE.sk_be_cleanup_invalidated_thread_contexts /\
